@@ -31,7 +31,7 @@ per-example outputs are concatenated in input order (per output for tuple / list
                  * batch sizes 2n, 10**9, default (32) with n > 32 up to 100, every b with n % b == 1;
                  * verbose=True (progress bar swallowed), device=torch.device('cpu').
  kind 'seq'    call histories on ONE model object: 3-5 predict calls with changing n / b / number of
-               args / model state, some on the very same X object whose content was changed in place
+               args / X dtype and rank / model state, some on the very same X object whose content was changed in place
                in between - every call must satisfy the statement (nothing may be carried over).
  kind 'mode'   float32 models with parameters whose train and eval behaviour differ (Dropout,
                BatchNorm1d with non-trivial running statistics, both), handed over in train mode or
@@ -92,7 +92,7 @@ SCOPE = {
               'memory layout of X and args (contiguous, every-other-row view with offset, permuted, stride-0 expanded args, args aliasing X and each other), X rank 1-4, '
               'X dtype (7), rotated args pool (int64 up to 2**40, float64, int32, bool, float32), model without / with a float32/float64/float16 parameter, '
               '12 output kinds (7 + named tuple, list of 4 incl. bool, inputs handed back, 2 rows per example, rows for some examples only), verbose=True, device object; '
-              'call histories: 3-5 consecutive predict calls on one model object (changing n, b, #args, model state, X changed in place between calls), 6 per n; '
+              'call histories: 3-5 consecutive predict calls on one model object (changing n, b, #args, X dtype / rank, model state, X changed in place between calls), 4 per n; '
               'dropout / batch-norm / both models in mixed states (top-level eval + child train, top-level train + child eval, eval): every n x b in {1,2,n,n+2,default} x 3 states; '
               'rejection additionally with batch_size omitted / 1 / n, expanded bad entry, model with parameter, every hand-over state'),
     'thorough': ('recording models: every n in 1..40 x every b in 1..n+3 x 0-3 extra arguments x all 7 output kinds x 3 data seeds, X dtype rotating; '
@@ -380,12 +380,20 @@ def _mode_data(n, nargs, seed):
     return X, args
 
 
+_MODE_CACHE = {}
+
+
 def check_mode(case):
     n, b, nargs, kind, seed = case['n'], case['b'], case['nargs'], case['model'], case['seed']
     X, args = _mode_data(n, nargs, seed)
     model = ModeModel(kind, seed)
-    ref = copy.deepcopy(model)
-    expected = _per_example(ref, X, args)
+    key = (kind, n, nargs, seed)
+    if key not in _MODE_CACHE:                            # model and data are functions of the key
+        if len(_MODE_CACHE) > 2000:
+            _MODE_CACHE.clear()
+        ref = copy.deepcopy(model)
+        _MODE_CACHE[key] = (ref, _per_example(ref, X, args))
+    ref, expected = _MODE_CACHE[key]
     X0, args0 = X.clone(), [a.clone() for a in args]
     _set_state(model, case.get('mstate', 'train'))
     viol = []
@@ -521,7 +529,7 @@ def check_ext(case):
 
 
 def check_seq(case):
-    """several predict calls on one model object; step: {n, b, nargs, seed, mstate, reuse, layout, call}"""
+    """several predict calls on one model object; step: {n, b, nargs, seed, mstate, reuse, layout, call, xdtype, xshape}"""
     out, pdtype, xdtype, xshape = case['out'], case['pdtype'], case['xdtype'], case['xshape']
     model = Rec(out, pdtype=pdtype)
     prev = None
@@ -533,7 +541,7 @@ def check_seq(case):
                 if t.dtype != torch.bool:
                     t.add_(1)
         else:
-            X, args, bases = _ext_data(st['n'], st['nargs'], st['seed'], xdtype, xshape, st['layout'], j)
+            X, args, bases = _ext_data(st['n'], st['nargs'], st['seed'], st.get('xdtype', xdtype), st.get('xshape', xshape), st['layout'], j)
         prev = (X, args, bases)
         single, expected = _per_example2(Rec(out, pdtype=pdtype), X, args)
         _set_state(model, st['mstate'])
@@ -618,7 +626,8 @@ def _draw_seq(rng, n, seed):
         m = steps[-1]['n'] if reuse else rng.choice((n, n, max(1, n - 1), n + 1, rng.randrange(1, 41)))
         steps.append({'n': m, 'b': rng.choice((1, 2, 3, max(1, m - 1), m, m + 1, None, rng.randrange(1, m + 4))),
                       'nargs': steps[-1]['nargs'] if reuse else rng.randrange(4), 'seed': seed + j, 'mstate': rng.choice(MSTATES),
-                      'reuse': reuse, 'layout': rng.choice(('contig', 'strided', 'permuted', 'expanded')), 'call': rng.choice(CALLS + ('kw',))})
+                      'reuse': reuse, 'layout': rng.choice(('contig', 'strided', 'permuted', 'expanded')), 'call': rng.choice(CALLS + ('kw',)),
+                      'xdtype': rng.choice(('float64', 'float32', 'int64', 'int32', 'float16')), 'xshape': rng.choice(list(XSHAPES))})
     out = rng.choice(EXT_OUT)
     return {'kind': 'seq', 'out': out, 'pdtype': None if out == 'ident' else rng.choice((None, 'float32', 'float16')),
             'xdtype': rng.choice(('float64', 'float32', 'int64', 'int32', 'float16')), 'xshape': rng.choice(list(XSHAPES)), 'steps': steps}
@@ -639,7 +648,7 @@ def _run_extended(rep, seed0, count, order, thorough):
                 for t in range(4 if thorough else 1):
                     case = _draw_ext(rng, n, b, nargs, seed0 + t)
                     _do(rep, case, 'extended-input-classes', count, sample=case)
-        for t in range(20 if thorough else 6):
+        for t in range(20 if thorough else 4):
             case = _draw_seq(rng, n, seed0 + 100 * t)
             _do(rep, case, 'call-histories', count, sample=case)
         if n > 40:
